@@ -172,8 +172,17 @@ func (s *BlockchainRpcTxWatcher) StartBlockWatcher() error {
 
 // HandleCsvTx looks for transactions that have enough confirmations to be spend using the csv path
 func (s *BlockchainRpcTxWatcher) HandleCsvTx(blockheight uint64) error {
-	var toRemove []string
+	// Collect the matured swaps under the lock, but call back without it. The
+	// callback runs the swap's state machine, which in turn registers
+	// transactions with this watcher: calling back with the lock held can
+	// block both sides forever.
+	type maturedTx struct {
+		swapId string
+		info   SwapTxInfo
+	}
+	var matured []maturedTx
 	s.Lock()
+	callback := s.csvPassedCallback
 	for k, v := range s.csvtxWatchList {
 		res, err := s.blockchain.GetTxOut(v.TxId, v.TxVout)
 		if err != nil {
@@ -186,18 +195,23 @@ func (s *BlockchainRpcTxWatcher) HandleCsvTx(blockheight uint64) error {
 		if v.Csv > res.Confirmations {
 			continue
 		}
-		if s.csvPassedCallback == nil {
+		if callback == nil {
 			continue
 		}
-		err = s.csvPassedCallback(k)
-		if err != nil {
-			log.Infof("csv passed callback err: %v. swap id: %s, tx id: %s, starting block height: %d",
-				err, k, v.TxId, v.StartingBlockHeight)
-			continue
-		}
-		toRemove = append(toRemove, k)
+		matured = append(matured, maturedTx{swapId: k, info: *v})
 	}
 	s.Unlock()
+
+	var toRemove []string
+	for _, m := range matured {
+		err := callback(m.swapId)
+		if err != nil {
+			log.Infof("csv passed callback err: %v. swap id: %s, tx id: %s, starting block height: %d",
+				err, m.swapId, m.info.TxId, m.info.StartingBlockHeight)
+			continue
+		}
+		toRemove = append(toRemove, m.swapId)
+	}
 	s.TxClaimed(toRemove)
 	return nil
 }
